@@ -24,11 +24,12 @@ def run_property(prop, tier, seed):
     drv = load_driver(prop)
     run = core.Run(prop, tier, seed, drv.LEVEL)
     run.assumptions = list(getattr(drv, 'ASSUMPTIONS', []))
+    fams = drv.families(tier)
+    run.prepare(fams)          # starts the pristine worker pool of the E4 families before anything else runs
     t = time.time()
     if hasattr(drv, 'selftest'):
         drv.selftest(run)
     run.selftest['selftest_wall_s'] = round(time.time() - t, 2)
-    fams = drv.families(tier)
     run.bounds = getattr(drv, 'bounds', lambda tier: {})(tier)
     run.run_families(fams)
     if hasattr(drv, 'post'):
